@@ -343,7 +343,16 @@ fn facts(state: &minidump_processor::ProcessState) -> String {
             hexstr(&m.debug_file().unwrap_or_default()),
             hexstr(&m.debug_identifier().unwrap_or_default().breakpad().to_string()),
             hexstr(m.code_identifier().unwrap_or_default().as_str()),
-            ostr(m.version().as_deref())
+            // modules[].version is computed by the model (MinidumpModule::version interpreted from its source) from the raw fields
+            format!(
+                "{} {} {} {} {} {}",
+                m.raw.version_info.signature,
+                m.raw.version_info.struct_version,
+                m.raw.version_info.file_version_hi,
+                m.raw.version_info.file_version_lo,
+                m.raw.version_info.product_version_hi,
+                m.raw.version_info.product_version_lo
+            )
         ));
     }
     f.push(format!("UNLM {}", state.unloaded_modules.iter().count()));
@@ -438,6 +447,21 @@ fn apply_overrides(state: &mut minidump_processor::ProcessState, x: &mut Toks) {
                 state.symbol_stats.insert(name, minidump_unwind::SymbolStats { symbol_url, loaded_symbols, corrupt_symbols, extra_debug_info });
             }
             "req" => state.requesting_thread = opt_num::<usize>(x.str()),
+            // the VS_FIXEDFILEINFO of module i: signature, struct_version, file_version_hi / lo, product_version_hi / lo
+            "ver" => {
+                let i = x.usize();
+                let vals: Vec<u32> = (0..6).map(|_| x.usize() as u32).collect();
+                let mut v: Vec<MinidumpModule> = state.modules.iter().cloned().collect();
+                if let Some(m) = v.get_mut(i) {
+                    m.raw.version_info.signature = vals[0];
+                    m.raw.version_info.struct_version = vals[1];
+                    m.raw.version_info.file_version_hi = vals[2];
+                    m.raw.version_info.file_version_lo = vals[3];
+                    m.raw.version_info.product_version_hi = vals[4];
+                    m.raw.version_info.product_version_lo = vals[5];
+                    state.modules = MinidumpModuleList::from_modules(v);
+                }
+            }
             // frame 0 of thread t keeps only the general-purpose registers whose index (in general_purpose_registers() order) is set
             // in the mask: json_registers must list exactly the valid ones
             "valid" => {
